@@ -113,6 +113,9 @@ class ChainNode(Entity):
         # CRAQ: track keys with uncommitted writes
         self._dirty_keys: set[str] = set()
 
+        # Newest write sequence accepted per key (propagations may be reordered)
+        self._key_seq: dict[str, int] = {}
+
         # Pending write futures (HEAD: seq -> SimFuture)
         self._pending_writes: dict[int, SimFuture] = {}
         self._next_seq: int = 0
@@ -254,8 +257,14 @@ class ChainNode(Entity):
 
         self._propagations_received += 1
 
-        # Apply locally
-        yield from self._store.put(key, value)
+        if seq > self._key_seq.get(key, 0):
+            # Apply locally
+            self._key_seq[key] = seq
+            yield from self._store.put(key, value)
+        else:
+            # Overtaken by a newer write to the same key: keep the newer value, but
+            # still pay the write cost and pass the message on so the head gets its ack.
+            yield self._store.write_latency
 
         if self._craq_enabled:
             self._dirty_keys.add(key)
